@@ -6,6 +6,7 @@ mod c06;
 mod c08;
 mod c09;
 mod c10;
+mod conc_ingest;
 mod fixtures;
 mod ingest;
 mod c18;
